@@ -562,6 +562,8 @@ def opaque_call(ev, st, ctx, why):
     if callee.get("res") is None and kr not in (None, "core", "alloc", "rand_core", "rand_xoshiro", "rand_xorshift", "rand_hc",
                                                  "rand_isaac", "rand_jitter", "serde", "serde_core"):
         unresolved = True  # code outside core (std, log, ...) may consult the environment: thread the world token
+    if kr in ev.neutral_crates:
+        unresolved = False  # the rule using this evaluator argues separately that these calls cannot influence the operation
     if unresolved:
         sig.append(st.world)
     call = T.atom("call", 1, tuple(sig), name)
